@@ -360,3 +360,136 @@ func runIterProto(p *core.Prog) *core.Result {
 	}
 	return res
 }
+
+// R-UNWINDTARGET (C08, C02, C01): the walk that emits the clean-up code of a break/continue goes
+// from the current block outwards and stops exactly at the target block. Leaving the walk early
+// is right in one situation only - the block about to be left is the shared per-loop scope *of the
+// target itself* (`continue` of a plain `for`) - and that is an identity test against the target.
+// An early exit decided by the *kind* of the enclosing block instead stops at the first inner
+// `for (let ...)` loop of a labelled continue: the inner scope is never left, an operand-stack slot
+// leaks per iteration, closures see the wrong binding and (with a captured variable) a Go
+// index-out-of-range escapes RunString. Seeded three times by independent agents (C08/e, C01/g,
+// C02/h).
+var UnwindTarget = &core.Rule{Name: "R-UNWINDTARGET", Run: runUnwindTarget,
+	Doc: "a loop that walks block.outer up to a target block is left early only under an identity comparison with that target"}
+
+func runUnwindTarget(p *core.Prog) *core.Result {
+	res := core.NewResult("R-UNWINDTARGET", 1)
+	fOuter, err := p.Field(core.GojaPath, "block", "outer")
+	if err != nil {
+		return res.Fail(err)
+	}
+	blockT, err := p.GojaType("block")
+	if err != nil {
+		return res.Fail(err)
+	}
+	nLoops := 0
+	for _, f := range p.Funcs {
+		for _, h := range f.Blocks {
+			// header: phi b with an edge = load(b.outer); loop condition b != T
+			var phi *ssa.Phi
+			for _, in := range h.Instrs {
+				ph, ok := in.(*ssa.Phi)
+				if !ok {
+					break
+				}
+				if !types.Identical(ph.Type(), types.NewPointer(blockT)) {
+					continue
+				}
+				for _, e := range ph.Edges {
+					if ld, ok := e.(*ssa.UnOp); ok && ld.Op == token.MUL {
+						if fa, ok := ld.X.(*ssa.FieldAddr); ok && core.FieldOf(fa) == fOuter && fa.X == ph {
+							phi = ph
+						}
+					}
+				}
+			}
+			if phi == nil || len(h.Instrs) == 0 {
+				continue
+			}
+			ifi, ok := h.Instrs[len(h.Instrs)-1].(*ssa.If)
+			if !ok {
+				continue
+			}
+			bo, ok := ifi.Cond.(*ssa.BinOp)
+			if !ok || (bo.Op != token.NEQ && bo.Op != token.EQL) {
+				continue
+			}
+			var target ssa.Value
+			switch {
+			case bo.X == phi:
+				target = bo.Y
+			case bo.Y == phi:
+				target = bo.X
+			default:
+				continue
+			}
+			if c, ok := target.(*ssa.Const); ok && c.IsNil() {
+				continue // a walk to the outermost block has no target to overshoot
+			}
+			nLoops++
+			inLoop := func(x *ssa.BasicBlock) bool { return h.Dominates(x) && (x == h || core.Reaches(x, h)) }
+			isTargetTest := func(cp core.CondPol) bool {
+				c, ok := cp.Cond.(*ssa.BinOp)
+				if !ok {
+					return false
+				}
+				if !((c.Op == token.EQL && cp.Pol) || (c.Op == token.NEQ && !cp.Pol)) {
+					return false
+				}
+				fromWalk := func(v ssa.Value) bool {
+					if v == phi {
+						return true
+					}
+					if ld, ok := v.(*ssa.UnOp); ok && ld.Op == token.MUL {
+						if fa, ok := ld.X.(*ssa.FieldAddr); ok && core.FieldOf(fa) == fOuter && fa.X == phi {
+							return true
+						}
+					}
+					return false
+				}
+				return (fromWalk(c.X) && c.Y == target) || (fromWalk(c.Y) && c.X == target)
+			}
+			n := 0
+			for _, x := range f.Blocks {
+				if !inLoop(x) || x == h {
+					continue
+				}
+				for si, s := range x.Succs {
+					if inLoop(s) {
+						continue
+					}
+					if p.FirstNoReturn(s) >= 0 || p.FirstNoReturn(x) >= 0 {
+						continue
+					}
+					n++
+					key := fmt.Sprintf("%s:early exit of the walk to the target#%d", core.FuncName(f), n)
+					conds := core.ControllingConds(x)
+					if xi, ok := x.Instrs[len(x.Instrs)-1].(*ssa.If); ok {
+						conds = append(conds, core.CondPol{Cond: xi.Cond, Pol: si == 0})
+					}
+					ok2 := false
+					for _, cp := range conds {
+						if isTargetTest(cp) {
+							ok2 = true
+						}
+					}
+					pos := p.Pos(x.Instrs[len(x.Instrs)-1].Pos())
+					if ok2 {
+						res.OK(key, pos, "only when the enclosing block is the target itself")
+					} else {
+						res.Bad(key, pos, "the unwinding walk stops before the target block without having compared the enclosing block with the target: a labelled continue across an inner `for (let ...)` loop leaves that loop's scope (and anything between) un-exited")
+					}
+				}
+			}
+			if n == 0 {
+				res.OK(fmt.Sprintf("%s:walk to the target has no early exit", core.FuncName(f)), p.Pos(h.Instrs[0].Pos()), "stops at the target only")
+			}
+		}
+	}
+	res.Count("walks of block.outer up to a target", nLoops)
+	if nLoops == 0 {
+		return res.Failf("no loop walking block.outer to a target block found (emitBlockExitCode)")
+	}
+	return res
+}
